@@ -88,6 +88,19 @@ func TestC14Release(t *testing.T) {
 			rt.Fatal(err)
 		}
 		w.HoldArgs = true
+		// in a share of the cases the Close methods of some registrations fail: a scope whose
+		// disposal reports an error is released like any other
+		closeFails := false
+		if rapid.IntRange(0, 3).Draw(rt, "closeFails") == 0 {
+			regs := map[int]bool{}
+			for _, r := range cfg.Regs {
+				if r.Form != kit.FormInstance && r.Life != kit.Singleton && rapid.Bool().Draw(rt, "closeFailReg") {
+					regs[r.ID] = true
+					closeFails = true
+				}
+			}
+			w.CloseFailRegs = regs
+		}
 		var mu sync.Mutex
 		var instHandles []func() bool
 		collecting := false
@@ -295,6 +308,9 @@ func TestC14Release(t *testing.T) {
 		if siblings > 1 {
 			labels = append(labels, "overlapping-siblings")
 		}
+		if closeFails {
+			labels = append(labels, "failing-Close-methods")
+		}
 		canon := fmt.Sprintf("%s || N=%d nest=%d ctx=%v gets=%v faultEvery=%d parentScope=%v childFirst=%v", cfg, N, nest, ctxKinds, getIDs, faultEvery, useParentScope, closeChildFirst)
 		col.Case(N >= 10 || nest > 0 || failedCreates > 0, canon, canon, labels...)
 		if f == nil {
@@ -420,6 +436,11 @@ func TestC14CreateVsClose(t *testing.T) {
 			case 2:
 				ctx, cancel = context.WithCancel(context.Background())
 			}
+			defer func() {
+				if cancel != nil {
+					cancel()
+				}
+			}()
 			var goid atomic.Int64
 			count := 0
 			pk := kit.NewParker(func(gp kit.GatePoint) bool {
@@ -481,9 +502,6 @@ func TestC14CreateVsClose(t *testing.T) {
 				_ = r.s.Close()
 			}
 			_ = top.Close()
-			if cancel != nil {
-				cancel()
-			}
 		}()
 		mu.Lock()
 		collecting = false
